@@ -37,7 +37,19 @@ def diag_effect(b, S, ev):
 def parser_table(prog):
     A = sym.Analyzer(prog, opaque=[r"parser::.*", r"ifdata::.*", r"a2ml::.*", r"specification::.*", r"<specification::.*"])
     fids = [f for f, b in prog.bodies.items() if b.file in ("a2lfile/src/parser.rs", "a2lfile/src/ifdata.rs", "a2lfile/src/lib.rs")]
-    return diag.table_for(prog, A, fids, diag_effect)
+    t = diag.table_for(prog, A, fids, diag_effect)
+    # errors built as struct literals and returned directly (require_block / require_keyword / ...)
+    for fid in fids:
+        rows = diag.agg_rows(prog, A, fid, {"parser::ParserError"})
+        if rows:
+            have = t.setdefault(mir.strip_generics(fid), [])
+            carried = {r[0].split(" ", 1)[1] for r in have if r[0].startswith(("error_or_log", "log_warning"))}
+            for r in rows:
+                if "ParserError::" + r[0].split("::")[-1] in carried:
+                    continue        # already a row of the channel that carries it
+                have.append(r)
+            have.sort(key=lambda r: (r[0], r[1]))
+    return t
 
 
 def run(chk):
@@ -149,6 +161,34 @@ def run(chk):
         for s in sorted(sites - set(allowed)):
             chk.add(Finding("R06-swallow", "R06-swallow::" + s, "a Result<_, ParserError> is inspected or discarded instead of propagated at `%s`: not one of the reviewed speculative-parsing idioms; an error (and in strict mode a failure) can be dropped here" % s, "a2lfile/src"))
     chk.rule("R06-swallow", "sites where a parser Result is not propagated, compared with the reviewed list", nsw, floor=10, extra={"distinct_sites": sorted(sites)})
+
+    # ------------------------------------------------------------------ R06-log
+    # the list of logged problems only grows: ParserState.log_msgs is touched by log_warning alone, and only through Vec::push
+    nlog = 0
+    for fid, b in sorted(prog.bodies.items()):
+        uses = []
+        for bi, si, s in b.stmts():
+            if s["k"] != "assign":
+                continue
+            pls = [mir.op_place(op) for op in mir.operands_of_rvalue(s["rv"])] + ([s["rv"]["p"]] if s["rv"]["r"] in ("ref", "discr", "len") else []) + [s["p"]]
+            if any(pl and any(isinstance(e, dict) and e.get("f") == "log_msgs" and e.get("adt") == STATE for e in pl["p"]) for pl in pls):
+                uses.append((bi, s))
+        for bi, t in b.calls():
+            for a in t["args"]:
+                pl = mir.op_place(a)
+                if pl and any(isinstance(e, dict) and e.get("f") == "log_msgs" and e.get("adt") == STATE for e in pl["p"]):
+                    uses.append((bi, t))
+        if not uses:
+            continue
+        nlog += len(uses)
+        if not mir.strip_generics(fid).endswith("ParserState::log_warning"):
+            chk.add(Finding("R06-log", "R06-log::" + mir.strip_generics(fid), "%s accesses ParserState.log_msgs directly: problems reported in non-strict mode may only be appended by log_warning, never cleared, replaced or reordered" % fid, b.where(uses[0][1].get("ln"))))
+        else:
+            muts = sorted({mir.strip_generics((t.get("res") or "").lstrip("?")) for bi, t in b.calls() if t["args"] and "Vec<" in (b.locals[mir.op_place(t["args"][0])["l"]]["ty"] if mir.op_place(t["args"][0]) else "")})
+            for m in muts:
+                if not m.endswith("Vec::push"):
+                    chk.add(Finding("R06-log", "R06-log::log_warning::" + m, "log_warning applies %s to the problem list (expected: push only)" % m, b.where()))
+    chk.rule("R06-log", "accesses to ParserState.log_msgs (allowed: log_warning, push only)", nlog, floor=1)
 
     # ------------------------------------------------------------------ R06-class
     diag.compare(chk, "R06-class", "parser", parser_table(prog), "diagnostic sites of parser.rs / ifdata.rs / lib.rs: channel, variant and control predicates compared with the reviewed table", floor=13,
